@@ -38,7 +38,6 @@ CLAUSES = [
     ("cl_uris", "hostile-namespace-uri-written-raw"),
     ("cl_names", "name-not-validated"),
     ("cl_user_prefixes", "reserved-or-invalid-user-prefix"),
-    ("cl_collision", "generated-prefix-collision"),
     ("cl_texts", "non-xml-char-not-rejected"),
     ("cl_adjacent", "adjacent-data-misplaced"),
     ("cl_default_attr", "default-ns-attribute-unprefixed"),
@@ -264,10 +263,10 @@ WITNESSES = [
      {"user": [["xml", "urn:a"]], "events": [["start", ["urn:a", "r"]], ["end", ["urn:a", "r"]]]}),
     ("reserved-or-invalid-user-prefix",
      {"user": [["xmlns", "urn:a"]], "events": [["start", ["urn:a", "r"]], ["end", ["urn:a", "r"]]]}),
-    ("generated-prefix-collision",
+    ("fixed:generated-prefix-collision",
      {"user": [["ns2", "urn:u"]], "events": [["start", ["urn:a", "r"]], ["start", ["urn:c", "c"]], ["attr", ["urn:u", "x"], {"t": "1"}],
                                              ["end", ["urn:c", "c"]], ["end", ["urn:a", "r"]]]}),
-    ("generated-prefix-collision",
+    ("fixed:generated-prefix-collision",
      {"user": [["xsi", "urn:o"]], "events": [["start", ["urn:o", "r"]], ["attr", [XSI, "nil"], {"t": "true"}], ["end", ["urn:o", "r"]]]}),
     ("hostile-namespace-uri-written-raw",
      {"user": [], "events": [["start", ['urn:a"b', "r"]], ["end", ['urn:a"b', "r"]]]}),
@@ -635,7 +634,7 @@ def run(ck: Check):
             ck.failure("oracle-fails-inside-guard", what, minimal(c, ofail[0]))
     # a witness that no longer fails: the finding is gone (note only; finish() reports non-reproduced findings)
     for c in live:
-        if c["stream"] == "witness" and live.index(c) not in bad:
+        if c["stream"] == "witness" and not c["expect"].startswith("fixed:") and live.index(c) not in bad:
             ck.notes.append(f"witness for {c['expect']} no longer fails")
 
     streams = {}
